@@ -21,6 +21,9 @@ CHECKS = {
     "C17": dict(level="exploration", technique=DIFF + "; persistence: every version re-read after all later updates",
                 text="held on the executions observed: histories of 1-40 mapping/set operations under hash functions from injective to constant and equalities coarser than identity, every version compared with an association-list model after the whole history ran; equal collections reached by different histories must also hash equally",
                 note="keys compared modulo the generated equality; keys and values are ints; one hash/equality pair per history"),
+    "C20": dict(level="exploration", technique=DIFF + " (independent JSON parser, rational arithmetic, civil-calendar algorithm)",
+                text="held on the executions observed: serialised JSON is read back by Python's json module and compared with the document, json_deserialize(serialize(v)) == v, date/julian_day and datetime/unix round trips against an independent days-from-civil algorithm over +-3,000,000 days and +-1e11 s, fraction results against fractions.Fraction, int<->text in bases 2/8/10/16, chr/code_point over all scalar-value edges",
+                note="trusts Python's json/fractions/chr and the transcription of the days-from-civil algorithm; fraction(n, 0) and 0 ** 0 are unspecified"),
 }
 REASON_PENDING = "check under construction in this round (not yet claimed)"
 
